@@ -83,8 +83,10 @@ func (w *c12world) afterOp(r *c12opres, all []*c12opres) {
 		return
 	}
 	failed := "store"
-	if n := len(sl.h.injected); n > 0 {
-		failed = sl.h.injected[n-1]
+	for _, k := range []string{"put", "delete", "get", "query"} {
+		if strings.Contains(r.err.Error(), k+" /allocation/") {
+			failed = k
+		}
 	}
 	mem, rec := w.get(sl, r.sub), w.record(r.sub)
 	c.S.Probe("storefail_checked_" + r.kind + "_" + failed)
@@ -151,6 +153,11 @@ func (w *c12world) checkWatch() {
 				}
 				continue
 			}
+			if ans == w.record(sub) {
+				// the notification was overtaken (reordering/duplication) and the node agrees with the store
+				c.S.Probe("watch_stale_notification_node_agrees_with_store")
+				continue
+			}
 			if t.deleted {
 				c.Fail("watch-applied", "watch/"+w.modeName()+"/delete-not-applied",
 					"node n%d received delete(%s) from n%d (seq %d) but still answers %q for it", sl.idx, sub, t.from, t.seq, ans)
@@ -163,7 +170,7 @@ func (w *c12world) checkWatch() {
 			}
 			// who held the announced prefix on this node when the notification arrived?
 			if !w.lease && t.holder != "" && t.holder != sub {
-				if t.holderRec == want {
+				if t.holderRec == want || w.st.conflicted[t.holderRec] {
 					// two store records claimed the prefix: a multi-writer conflict, not C12's subject
 					c.S.Probe("watch_skipped_store_conflict")
 					continue
